@@ -52,8 +52,8 @@ PROPS = {
         "assumptions": [CORR, RANGES],
     },
     "C11": {
-        "modules": ["SifVerif.Props.C11"],
-        "theorems": ["C11_sizes", "C11_hdr_offsets", "C11_desc_offsets", "C11_roundtrip", "C11_int_codecs", "C11_load_encoded", "C11_encodeImage_loadable", "C11_refuse", "C11_group_link"],
+        "modules": ["SifVerif.Props.C11", "SifVerif.Props.FactsLayout"],
+        "theorems": ["header_layout", "header_offsets", "descriptor_layout", "descriptor_offsets", "magic", "arch_maps", "data_types", "C11_sizes", "C11_hdr_offsets", "C11_desc_offsets", "C11_roundtrip", "C11_int_codecs", "C11_load_encoded", "C11_encodeImage_loadable", "C11_refuse", "C11_group_link"],
         "mode": "hist", "technique": HIST,
         "level_text": "proof: header = 128 bytes, descriptor = 585 bytes, every field at its fixed little-endian offset (C11_sizes, C11_*_offsets); decode o encode = id on all representable values (C11_roundtrip, C11_int_codecs); any image laid out that way by an independent encoder - arbitrary valid fields, free slots, ID numbering, placement, gap after the table - loads with exactly that header and those descriptors (C11_load_encoded, C11_encodeImage_loadable); magic/version mismatch is refused (C11_refuse); group/link nibble encoding (C11_group_link). Tie: the Lean encoder's bytes equal the library's files byte for byte on every campaign step and the library's loader agrees with the Lean decoder on them; independent Go decoder oracle.",
         "summary": "fixed offsets, 128/585 bytes, decode.encode = id; load of any encoded image yields that image; wrong magic/version refused",
@@ -88,8 +88,8 @@ PROPS = {
         "assumptions": [CORR, RANGES],
     },
     "C04": {
-        "modules": ["SifVerif.Props.C04"],
-        "theorems": ["C04_streams_injective", "C04_sound", "C04_no_change_survives", "C04_unprotected_fields"],
+        "modules": ["SifVerif.Props.C04", "SifVerif.Props.FactsStreams"],
+        "theorems": ["hdr_stream_fields", "desc_stream_fields", "C04_streams_injective", "C04_sound", "C04_no_change_survives", "C04_unprotected_fields"],
         "mode": "integ", "technique": INTEG,
         "level_text": "proof (crypto idealised): the header and descriptor integrity streams are injective encodings of exactly the protected fields (C04_streams_injective); if verification succeeds then for every group task and every signature checked there is a supplied key and metadata its holder signed whose header digest is that of the image's header stream and whose entry at each verified object's position relative to the group holds the digests of that object's descriptor stream and content (C04_sound, under Honest); two images matching the same signed metadata agree on every protected header and descriptor field, the relative position, and the content byte for byte (C04_no_change_survives, under HInj); the fields verification does not notice are not in the streams (C04_unprotected_fields). Tie: tamper campaign - single-bit flips of header/table/data/signatures, catalogue field rewrites, descriptor swaps on images signed with real PGP/DSSE keys; the Lean model decodes the raw bytes itself, recomputes every digest with its own SHA-2 and predicts Verify()'s verdict and results.",
         "summary": "verify ok => protected view = signed view; integrity streams injective",
@@ -134,5 +134,15 @@ PROPS = {
         "level_text": "proof: AnySignedBy/AllSignedBy return, strictly sorted in byte order and duplicate-free, exactly the fingerprints recorded on signatures attached to at least one / every selected task (C17_exact); the listing depends on the image bytes only and produces no new image (C17_read_only); after a successful verification every PGP-path signature of a group task carries the fingerprint of the keyring entity that validated it (C17_validated). Tie: multi-group multi-signer images x task selections, listing vs model and vs an independent recomputation; file bytes compared before/after.",
         "summary": "any = sorted dedup union, all = sorted dedup intersection; PGP fingerprints listed => validated",
         "trusted_base": IBASE, "assumptions": [CORR, CRYPTO],
+    },
+    "C18": {
+        "modules": ["SifVerif.Props.C18"],
+        "theorems": ["C18_all_schedules", "C18_interleaving", "C18_write_breaks", "C18_model_queries", "C18_no_shared_writes", "C18_entries_cover"],
+        "mode": "integ", "race": True, "technique": "Lean 4 interleaving theorem (every schedule of threads whose steps only read the shared handle yields each thread's run-alone answer) + certificate regenerated from the Go source on every run (extract/effects.go: no store to shared state in any function reachable from the read-only API; checked by `decide` in Lean) + -race stress correspondence (concurrent answers on fresh handles = run-alone answers = Lean model's answers)",
+        "level": "proof",
+        "level_text": "proof + regenerated certificate (partial: the Go memory model and the caller's ReaderAt are trusted): for threads whose steps may read a shared state but only change their private accumulator, under every schedule each finished thread holds exactly its run-alone result (C18_interleaving, C18_all_schedules); one storing step breaks this (C18_write_breaks, the shape of a lazily built cache); all model queries are functions of (Img, Store) and so have that shape (C18_model_queries). The premise for the Go code - no function reachable from any exported non-mutating function of pkg/sif and pkg/integrity (calls, references, closures, interface dispatch by name) stores through *FileImage/*header/*rawDescriptor, to a package-level variable, calls a pointer-receiver method on one, hands &shared to foreign code, or calls Write/Seek/Truncate on the backing store - is extracted from the current source by go/types on every run and must be the empty list (C18_no_shared_writes, C18_entries_cover for non-vacuity). Tie: harness built with -race; signed images built through the library (construction and run-alone answers compared with the Lean model), then fresh handles on both backing stores are used by 2-8 goroutines whose first access is concurrent; every answer (listings with selectors, data, held-then-drained integrity streams, Verify, AnySignedBy) must equal the run-alone answer; any race-detector report is a violation.",
+        "summary": "read-only steps commute: every schedule gives each thread its run-alone answer; Go read paths perform no shared store (regenerated certificate)",
+        "trusted_base": IBASE + ["extract/effects.go (go/types source importer): syntactic effect analysis without alias analysis through interfaces, reflection or unsafe; Go memory model (race-free programs are sequentially consistent); the caller-supplied ReaderAt is safe for concurrent ReadAt (true of *os.File and sif.Buffer.ReadAt, which the scan covers)"],
+        "assumptions": [CORR, "the interleaving theorem models each API call as a sequence of atomic read steps; that abstraction is sound for race-free code (certificate + race detector) under the Go memory model"],
     },
 }
